@@ -26,8 +26,11 @@ def main():
     ap.add_argument("--only", nargs="*")
     ap.add_argument("--tier", default="quick")
     ap.add_argument("--all-checks", action="store_true", help="run every check against every change")
+    ap.add_argument("--checks", nargs="*", help="run only these checks (instead of the ones named in meta.json); implies --no-cache")
     ap.add_argument("--no-cache", action="store_true", help="do not update seeded/results.json / README.md (robustness runs under other seeds)")
     a = ap.parse_args()
+    if a.checks:
+        a.no_cache = True
     rows = []
     dirs = []
     for base in ("seeded", "mutants"):
@@ -58,7 +61,7 @@ def main():
                 if f.startswith("demo") and f.endswith(".py"):
                     x = sh("cd %s && cp %s . && /venv/bin/python %s" % (scratch, os.path.join(d, f), f))
                     demo = "demo exit %d" % x.returncode
-            targets = props if a.all_checks else meta.get("checks", [meta["property"]])
+            targets = a.checks if a.checks else (props if a.all_checks else meta.get("checks", [meta["property"]]))
             res = {}
             t0 = time.time()
             for p in targets:
